@@ -115,6 +115,13 @@ impl Model {
         self.resolve_from(String::new(), path, follow_last, &mut hops)
     }
 
+    /// Number of links the kernel follows to resolve `path` (all of its components).
+    pub fn hops(&self, path: &str) -> usize {
+        let mut hops = 0usize;
+        let _ = self.resolve_from(String::new(), path, true, &mut hops);
+        hops
+    }
+
     fn resolve_from(
         &self,
         start: String,
@@ -248,7 +255,9 @@ impl Model {
                                 });
                                 continue;
                             }
-                            match self.resolve(&cnode, true) {
+                            // the kernel resolves the path as the walk spells it: the limit on
+                            // followed links counts the hops of every link on that path
+                            match self.resolve(&cpath, true) {
                                 Err(errno) => out.push(Visit {
                                     path: cpath,
                                     canon: cnode,
